@@ -80,7 +80,8 @@ Record wpred := mkWP {
   wp_is_type : bool;            (* WherePredicate::Type, as opposed to ::Lifetime *)
   wp_bounded : bounded;
   wp_bounds : list toks;
-  wp_toks : toks                (* the whole predicate as syn prints it *)
+  wp_toks : toks;               (* the whole predicate as syn prints it *)
+  wp_binder : toks              (* the [for<'a, ..>] in front of a type predicate as syn prints it; [] when there is none *)
 }.
 
 Record generics := mkGen {
